@@ -6,7 +6,7 @@ Closed list of rewrites (DESIGN.md section 2.1):
   R3  RECV.and_then(|x| BODY) -> (match RECV { Ok(x) => BODY, Err(verif_e) => Err(verif_e) })
   R4  `-> T` -> `-> (r: T)`, visibility -> pub
   R5  contract clauses / loop invariants / proof prologues inserted (ghost only)
-  R6  unimplemented!/todo!/unreachable!/panic! -> verif_panic()
+  R6  unimplemented!/todo!/unreachable!/panic! -> verif_panic(); R6b debug_assert*!(c) -> if !(c) { verif_panic() }
   R7  attributes and doc comments on extracted items removed (enums get a fixed derive list)
   R8  configured textual substitutions / cuts (side-car `subst`, `cut`), each listed in the extraction report
   R9  crate path qualifiers (`garnish_lang_traits::`, `crate::…::`) dropped: the generated file is a single crate
@@ -198,6 +198,20 @@ def _strip_attrs_and_docs(text, report):
     return apply_edits(text, edits)
 
 
+def _top_level_split(inner):
+    """split macro arguments at top-level commas"""
+    parts, depth, cur = [], 0, ""
+    for ch in inner:
+        if ch in "([{": depth += 1
+        elif ch in ")]}": depth -= 1
+        if ch == "," and depth == 0:
+            parts.append(cur); cur = ""
+        else:
+            cur += ch
+    if cur.strip(): parts.append(cur)
+    return parts
+
+
 def _macro_rewrites(text, report):
     """R1, R2, R6 over macro invocations `name!( .. )`."""
     st = sig(scan(text))
@@ -226,7 +240,25 @@ def _macro_rewrites(text, report):
             elif name in PANIC_MACROS:
                 edits.append(Edit(t.start, st[j].end, "verif_panic()", "R6"))
                 report.append({"rule": "R6", "before": before, "after": "verif_panic()"})
-            elif name in ("vec", "assert", "debug_assert", "matches"):
+            elif name in ("debug_assert", "debug_assert_eq", "debug_assert_ne"):
+                # R6b: a debug assertion panics in the checked build; reaching its failure becomes an obligation
+                inner = text[st[i + 2].end:st[j].start]
+                if name == "debug_assert":
+                    cond = inner.split(",")[0] if "," not in inner or inner.count("(") == inner.count(")") and "," not in _top_level_split(inner)[0] else _top_level_split(inner)[0]
+                    cond = _top_level_split(inner)[0]
+                    new = "if !(" + cond.strip() + ") { verif_panic() }"
+                else:
+                    parts = _top_level_split(inner)
+                    if len(parts) < 2:
+                        raise ExtractError(f"cannot split {name}! arguments")
+                    op = "==" if name == "debug_assert_eq" else "!="
+                    new = "if !((" + parts[0].strip() + ") " + op + " (" + parts[1].strip() + ")) { verif_panic() }"
+                end = st[j].end
+                if j + 1 < len(st) and st[j + 1].text == ";":
+                    end = st[j + 1].end
+                edits.append(Edit(t.start, end, new, "R6b"))
+                report.append({"rule": "R6b", "before": before, "after": new})
+            elif name in ("vec", "assert", "matches"):
                 pass
             else:
                 raise ExtractError(f"unsupported macro {name}! in extracted text")
